@@ -104,6 +104,8 @@ def cases(tier):
     for k in (1, 2, 3):
         yield ('series-overlay', k)
     yield ('typed-index-concat', 0)
+    for k in (1, 2, 3):
+        yield ('hier-widths', k)
 
 
 def universe(tier):
@@ -482,8 +484,60 @@ def run_overlay(case, ctx):
     ctx.sample({'family': 'overlay', 'shard': sh}, limit=1)
 
 
+def _label_reads(ih):
+    out = {'iter': [tuple(t) for t in ih],
+           'values': [tuple(r) for r in ih.values.tolist()],
+           'values_at_depth': list(zip(*(ih.values_at_depth(d).tolist() for d in range(ih.depth))))}
+    return out
+
+
+def run_hier_widths(case, ctx):
+    """two-level labels on the concatenated axis whose components have the same kind but different widths per input (text of 1..3 characters, 32- and 64-bit integers),
+    in every input order; the labels are read by iteration, through .values and through values_at_depth, and every label must select its own position"""
+    _, k = case
+    INNER = {'w1': (['a', 'b'], '<U1'), 'w2': (['cc', 'a'], '<U2'), 'w3': (['eee'], '<U3'), 'i32': ([1, 2], 'int32'), 'i64': ([2 ** 40, 3], 'int64'), 'i16': ([7], 'int16')}
+    for fam in (('w1', 'w2', 'w3'), ('i32', 'i64', 'i16')):
+        for seq in itertools.product(fam, repeat=k):
+            ctx.state(('hier-widths', seq))
+            ctx.nontriv(('hier-widths', seq))
+            sers, frames0, frames1, hier_in = [], [], [], []
+            exp = []
+            for i, nm in enumerate(seq):
+                labs, dt = INNER[nm]
+                ix = sf.Index(U.frozen(np.array(labs, dtype=dt)))
+                vals = [10 * i + j for j in range(len(labs))]
+                sers.append(('k%d' % i, sf.Series(vals, index=ix)))
+                frames0.append(('k%d' % i, sf.Frame.from_records([[v, v + 0.5] for v in vals], index=ix, columns=('p', 'q'))))
+                frames1.append(('k%d' % i, sf.Frame.from_records([vals, [v + 0.5 for v in vals]], columns=ix, index=('p', 'q'))))
+                hier_in.append(sf.Series(vals, index=sf.IndexHierarchy.from_labels([('k%d' % i, l) for l in labs])))
+                exp += [('k%d' % i, l) for l in labs]
+            info = dict(inputs=seq)
+            routes = [('series.from_concat_items', lambda: sf.Series.from_concat_items(sers).index),
+                      ('frame.from_concat_items|axis=0', lambda: sf.Frame.from_concat_items(frames0, axis=0).index),
+                      ('frame.from_concat_items|axis=1', lambda: sf.Frame.from_concat_items(frames1, axis=1).columns),
+                      ('series.from_concat|hierarchical-inputs', lambda: sf.Series.from_concat(hier_in).index)]
+            for tag, call in routes:
+                ctx.transition()
+                try:
+                    ih = call()
+                    reads = _label_reads(ih)
+                    for how, got in reads.items():
+                        if got != exp:
+                            ctx.violation(f'hier-widths|{tag}|labels-read-through-{how}', **info, got=got, expected=exp)
+                            break
+                    else:
+                        for pos, lab in enumerate(exp):
+                            if ih.loc_to_iloc(lab) != pos:
+                                ctx.violation(f'hier-widths|{tag}|label-selects-other-position', **info, label=lab, got=repr(ih.loc_to_iloc(lab)), expected=pos)
+                                break
+                except Exception as e:
+                    ctx.violation(f'hier-widths|{tag}|raises|{type(e).__name__}', **info, error=repr(e))
+            ctx.outcome(f'hier-widths:k={k}')
+    ctx.sample({'family': 'hier-widths', 'k': k}, limit=1)
+
+
 def run_case(case, ctx):
-    {'concat': run_concat, 'series': run_series, 'overlay': run_overlay, 'series-overlay': run_series_overlay, 'typed-index-concat': run_typed_index_concat}[case[0]](case, ctx)
+    {'concat': run_concat, 'series': run_series, 'overlay': run_overlay, 'series-overlay': run_series_overlay, 'typed-index-concat': run_typed_index_concat, 'hier-widths': run_hier_widths}[case[0]](case, ctx)
 
 
 _cases = cases
